@@ -6,6 +6,7 @@ package main
 // quiescence (no timing guesses: see c05Conn.barrier).
 //   case:   <id> net=<tcp|udp> q0=<n> ev=<S<cid>[:<flags>]|U<k>|R<k>.<mark>|I<id>.<mark>|G|C<k>|X|Y>,...
 //           flags of a start (write outcomes chosen by the environment):
+//             l  the Write puts the octets on the wire but RETURNS late (after U<k>): the exchange is not yet in its select
 //             h  the exchange's net.Conn.Write is HELD (it has its wire id and sits inside write) until U<k>
 //             o  oversized query (65508..65535 octets): a real datagram socket answers EMSGSIZE (connection stays
 //                open); over TCP framing it is an ordinary large frame
@@ -51,6 +52,11 @@ import (
 
 func init() {
 	register("pipeline", 8, func(id string, p []string) string {
+		return c05Guard(60*time.Second, func() string { return c05RunPipeline(p) })
+	})
+	// pipeline_arms: the same runner; histories that end with "Write returns late, reply delivered, connection closed,
+	// Write returns": the exchange enters its select with BOTH arms ready (compared against both model outcomes)
+	register("pipeline_arms", 8, func(id string, p []string) string {
 		return c05Guard(60*time.Second, func() string { return c05RunPipeline(p) })
 	})
 	register("pipeline_eol", 2, func(id string, p []string) string {
@@ -303,6 +309,7 @@ type c05Ex struct {
 	once   sync.Once
 	// write plan (flags of the start event)
 	hold     bool
+	late     bool // held AFTER the octets went out (Write returns late)
 	big      bool
 	fail     byte          // 0, 's' (scripted EMSGSIZE), 'x' (scripted other error)
 	held     chan struct{} // closed when the exchange's Write has been entered and is being held
@@ -393,7 +400,7 @@ func (st *c05Pipe) onWrite(inner net.Conn, b []byte) (int, error) {
 	if e == nil {
 		return inner.Write(b)
 	}
-	if e.hold {
+	if e.hold && !e.late {
 		e.heldOnce.Do(func() { close(e.held) })
 		<-e.release
 	}
@@ -410,6 +417,12 @@ func (st *c05Pipe) onWrite(inner net.Conn, b []byte) (int, error) {
 	n, err := inner.Write(b)
 	if err != nil && (e.big || e.hold) {
 		e.cancel()
+	}
+	if err == nil && e.late {
+		// the octets are on the wire, but Write RETURNS late: the exchange is not yet parked in its select while the
+		// server answers (and possibly closes); after U<k> it enters select with whatever became ready meanwhile
+		e.heldOnce.Do(func() { close(e.held) })
+		<-e.release
 	}
 	return n, err
 }
@@ -539,6 +552,13 @@ func (st *c05Pipe) emit(msg []byte, id uint16) string {
 	}
 	st.mu.Unlock()
 	for _, e := range match {
+		if e.hold {
+			select {
+			case <-e.release:
+			default:
+				continue // still inside Write: it returns only after U<k>
+			}
+		}
 		c05WaitChan(e.done, 5*time.Second)
 	}
 	return ""
@@ -554,6 +574,8 @@ func (st *c05Pipe) start(cid uint16, flags string) string {
 		switch f {
 		case 'h':
 			e.hold = true
+		case 'l':
+			e.hold, e.late = true, true
 		case 'o':
 			e.big = true
 		case 's', 'x':
@@ -603,6 +625,14 @@ func (st *c05Pipe) start(cid uint16, flags string) string {
 	if !e.hold {
 		if s := st.afterWrite(e); s != "" {
 			return s
+		}
+	}
+	if e.late {
+		select { // the query is on the wire: let the server see it before the next event
+		case <-e.seen:
+		case <-e.done:
+		case <-tm.C:
+			return fmt.Sprintf("HARNESS-ERROR late exchange %d not seen", k)
 		}
 	}
 	return ""
